@@ -15,6 +15,7 @@ Witness (thorough tier): Repository<IndexedIdsStatus>::get_index_entry does not 
 import re
 from rules.common import *
 
+TECHNIQUE = ('static analysis over rustc MIR: per-mode evaluation (forcing the EntriesVariants discriminant) of get_id/has, sort-before-search and bucket-by-type provenance, every-iteration accumulation rules, read-error propagation; type-level witness crate (compile_fail doctests with compiling twins) in the thorough tier')
 LEVEL = "other"
 EXPLANATION = (
     "Structure rules over index/binarysorted.rs and the call sites of IndexCollector::extend: key projection of sort and "
